@@ -593,31 +593,37 @@ Proof. constructor; cbn; [apply winv_init|intros h []|reflexivity]. Qed.
 Lemma total_held_cons x l : total_held (x :: l) = (snd x + total_held l)%nat.
 Proof. reflexivity. Qed.
 
-Lemma pstep_inv w l : PInv w -> PInv (pstep true w l).
+Lemma pstep_inv w l : PInv w -> PInv (pstep code_ok w l).
 Proof.
-  intros [B L C]. destruct l as [b|i n|k]; cbn [pstep].
-  - constructor; cbn [pb holds taken returned].
+  intros [B L C]. destruct l as [b|i n|k|k]; cbn [pstep].
+  - constructor; cbn [pb holds taken returned clean_recycles close_exit_recycles code_ok].
     + apply step_inv. assumption.
     + intros h Hh. apply filter_In in Hh. destruct Hh as [_ Hh]. apply negb_true_iff in Hh. assumption.
     + rewrite C. rewrite (total_held_split (fun x => table_dropped (step (pb w) b) (fst x)) (holds w)). lia.
   - destruct (nth_error (ss (pb w)) i) as [s|] eqn:E; [|constructor; assumption].
     destruct (cleaned s) eqn:Ec; [constructor; assumption|].
-    constructor; cbn [pb holds taken returned]; auto.
+    constructor; cbn [pb holds taken returned clean_recycles close_exit_recycles code_ok]; auto.
     + intros h [<-|Hh]; [cbn [fst]; unfold table_dropped; rewrite E; assumption|auto].
     + rewrite C, total_held_cons. cbn [snd]. lia.
   - destruct (nth_error (holds w) k) as [[i n]|] eqn:E; [|constructor; assumption].
-    constructor; cbn [pb holds taken returned]; auto.
+    constructor; cbn [pb holds taken returned clean_recycles close_exit_recycles code_ok]; auto.
+    + intros h Hh. apply L. eapply in_drop_nth. eassumption.
+    + rewrite C. pose proof (total_held_drop _ _ _ _ E). lia.
+  - destruct (nth_error (holds w) k) as [[i n]|] eqn:E; [|constructor; assumption].
+    destruct (nth_error (ss (pb w)) i) as [s|]; [|constructor; assumption].
+    destruct (sd s); [|constructor; assumption].
+    constructor; cbn [pb holds taken returned clean_recycles close_exit_recycles code_ok]; auto.
     + intros h Hh. apply L. eapply in_drop_nth. eassumption.
     + rewrite C. pose proof (total_held_drop _ _ _ _ E). lia.
 Qed.
 
-Lemma pinv_run sch : forall w, PInv w -> PInv (prun true sch w).
+Lemma pinv_run sch : forall w, PInv w -> PInv (prun code_ok sch w).
 Proof. unfold prun. induction sch as [|l sch IH]; intros w P; cbn; [assumption|]. apply IH, pstep_inv, P. Qed.
 
 (* every slice ever taken is back in the free lists or held by a stream of a session whose cleanup has
    not run yet — whatever the manager's reference count: it need not reach 0 for the slices to return *)
 Theorem slices_conserved sch :
-  let w := prun true sch pinit in
+  let w := prun code_ok sch pinit in
   taken w = (returned w + total_held (holds w))%nat /\
   (forall h, In h (holds w) -> table_dropped (pb w) (fst h) = false) /\ WInv (pb w).
 Proof. intros w. destruct (pinv_run sch pinit pinv_init) as [B L C]. auto. Qed.
@@ -669,7 +675,7 @@ Qed.
    the buffer manager being released: it may live on with any number of other references *)
 Theorem dead_session_returns_slices w i s :
   PInv w -> nth_error (ss (pb w)) i = Some s -> cleaned s = false ->
-  let w' := pstep true (pstep true w (PBase (LClose i))) (PBase (LLambda i)) in
+  let w' := pstep code_ok (pstep code_ok w (PBase (LClose i))) (PBase (LLambda i)) in
   held_by i (holds w') = O /\
   returned w' = (returned w + held_by i (holds w))%nat /\
   (forall j, i <> j -> held_by j (holds w') = held_by j (holds w)) /\
@@ -686,14 +692,14 @@ Proof.
     assert (Hcl : cleaned (close_sess s) = false) by (unfold close_sess; destruct (sd s); assumption).
     destruct (B0 Hsd) as (_ & [H|H] & _); [assumption|congruence]. }
   (* the first step changes no holding *)
-  set (w1 := pstep true w (PBase (LClose i))) in *.
+  set (w1 := pstep code_ok w (PBase (LClose i))) in *.
   assert (Hb1 : pb w1 = b1) by reflexivity.
   assert (Ht1 : taken w1 = taken w) by reflexivity.
   assert (F : forall x, In x (holds w) -> table_dropped b1 (fst x) = false) by (intros x Hx; unfold b1; rewrite dropped_close; auto).
   assert (Hh1 : holds w1 = holds w).
   { unfold w1. cbn [pstep holds]. fold b1. apply filter_all_true. intros x Hx. rewrite (F x Hx). reflexivity. }
   assert (Hr1 : returned w1 = returned w).
-  { unfold w1. cbn [pstep returned]. fold b1. rewrite (filter_all_false _ _ F). cbn. lia. }
+  { unfold w1. cbn [pstep returned clean_recycles close_exit_recycles code_ok]. fold b1. rewrite (filter_all_false _ _ F). cbn. lia. }
   clearbody w1.
   assert (Hd : forall x, In x (holds w) -> table_dropped b2 (fst x) = Nat.eqb (fst x) i).
   { intros x Hx. destruct (Nat.eqb (fst x) i) eqn:Ex.
@@ -702,7 +708,7 @@ Proof.
   assert (Hh2 : holds w' = filter (fun x => negb (Nat.eqb (fst x) i)) (holds w)).
   { unfold w'. cbn [pstep holds]. rewrite Hb1, Hh1. fold b2. apply filter_ext_in. intros x Hx. rewrite (Hd x Hx). reflexivity. }
   assert (Hr2 : returned w' = (returned w + held_by i (holds w))%nat).
-  { unfold w'. cbn [pstep returned]. rewrite Hb1, Hh1, Hr1. fold b2. f_equal. unfold held_by. f_equal.
+  { unfold w'. cbn [pstep returned clean_recycles close_exit_recycles code_ok]. rewrite Hb1, Hh1, Hr1. fold b2. f_equal. unfold held_by. f_equal.
     apply filter_ext_in. intros x Hx. apply Hd. assumption. }
   split; [rewrite Hh2; apply held_by_filter_self|]. split; [assumption|].
   split; [intros j Hne; rewrite Hh2; apply held_by_filter_other; assumption|].
@@ -714,9 +720,21 @@ Qed.
 Definition slices_witness : list plabel :=
   [PBase (LOpen 7 100 1); PBase (LOpen 7 101 1); PTake 0 50; PTake 1 5; PBase (LRemote 0); PBase (LLambda 0)].
 Lemma early_return_loses_slices :
-  ~ (forall sch, let w := prun false sch pinit in taken w = (returned w + total_held (holds w))%nat).
+  ~ (forall sch, let w := prun code_early_return_clean sch pinit in taken w = (returned w + total_held (holds w))%nat).
 Proof. intros F. specialize (F slices_witness). vm_compute in F. discriminate. Qed.
 Lemma slices_witness_ok :
-  let w := prun true slices_witness pinit in
+  let w := prun code_ok slices_witness pinit in
   taken w = 55%nat /\ returned w = 50%nat /\ holds w = [(1%nat, 5%nat)] /\ refcount 7 (pb w) = 1.
+Proof. vm_compute. repeat split. Qed.
+
+(* regression: a Flush whose close-notified exit returns at once (skipping the common buf.recycle()) — the
+   session-level close notifies first and recycles later, so the woken Flush leaves nothing for the cleanup *)
+Definition flush_close_witness : list plabel :=
+  [PBase (LOpen 7 100 1); PBase (LOpen 7 101 1); PTake 0 8; PBase (LRemote 0); PFlushClosedExit 0; PBase (LLambda 0)].
+Lemma flush_close_exit_loses_slices :
+  ~ (forall sch, let w := prun code_flush_returns_on_close sch pinit in taken w = (returned w + total_held (holds w))%nat).
+Proof. intros F. specialize (F flush_close_witness). vm_compute in F. discriminate. Qed.
+Lemma flush_close_witness_ok :
+  let w := prun code_ok flush_close_witness pinit in
+  taken w = 8%nat /\ returned w = 8%nat /\ holds w = [] /\ refcount 7 (pb w) = 1.
 Proof. vm_compute. repeat split. Qed.
